@@ -322,6 +322,16 @@ func (w *ResponseWriter) WriteMsg(m *dns.Msg) error {
 			m.Extra = append(m.Extra, opt)
 		}
 
+		if opt != w.opt {
+			// The response brought its own OPT: an upstream's (the forwarder
+			// relays the additional section; a negative answer keeps the
+			// authority's OPT) or one built inside the chain. Of what it
+			// carries, only an Extended DNS Error is meant for the client.
+			// An upstream's cookie answers OUR cookie, its NSID names IT,
+			// its padding and private options belong to that hop.
+			opt.Option = onlyEDE(opt.Option)
+		}
+
 		// Set common OPT parameters
 		opt.SetDo(w.do)
 		opt.SetUDPSize(w.respUDPSize)
@@ -411,6 +421,18 @@ func keepOPTOnly(extra []dns.RR) []dns.RR {
 // stripECS returns opts with every EDNS0_SUBNET entry removed.
 // Done in place when the result is the same length (common case:
 // nothing to strip) so the typical OPT write doesn't allocate.
+// onlyEDE keeps the Extended DNS Error options of a list and drops the rest,
+// in place.
+func onlyEDE(opts []dns.EDNS0) []dns.EDNS0 {
+	keep := opts[:0]
+	for _, o := range opts {
+		if _, isEDE := o.(*dns.EDNS0_EDE); isEDE {
+			keep = append(keep, o)
+		}
+	}
+	return keep
+}
+
 func stripECS(opts []dns.EDNS0) []dns.EDNS0 {
 	keep := opts[:0]
 	for _, o := range opts {
